@@ -17,7 +17,7 @@ CONSTANTS MinRows, MaxRows, MaxOutside,
           CenterSet,         \* subset of BOOLEAN
           NoInterceptToo,    \* also the no-intercept mode (only generated without fixed effects)
           Callers,           \* subset of {"pred", "bootstrap", "interval"}
-          SelMode,           \* "all" | "some"
+          SelMode,           \* "all" | "few" | "some"
           WithNA,            \* outside rows may carry a missing level
           ExtraSet,          \* set of extra-column lists (numeric frame columns named <fe>_<suffix>)
           Export, SampleMod
@@ -26,32 +26,35 @@ FE_none == {<<>>}
 FE_1    == {<<"f1">>}
 FE_12   == {<<"f1", "f2">>, <<"f2", "f1">>}
 FE_all  == {<<"f1">>, <<"f1", "f2">>, <<"f2", "f1">>}
-FE_any  == {<<>>, <<"f1">>, <<"f1", "f2">>}
+FE_q    == {<<"f1">>, <<"f2", "f1">>}
+FE_12a  == {<<"f1", "f2">>}
+FE_01   == {<<>>, <<"f1">>}
 
 BNM == "baseline_normalized_margin"
 FT_x    == {<<"x1">>}
 FT_two  == {<<"x1", BNM>>}
 FT_all  == {<<>>, <<"x1">>, <<"x1", BNM>>, <<BNM, "x1">>, <<"x1", BNM, "x2">>}
-FT_some == {<<"x1">>, <<"x1", BNM, "x2">>}
+FT_q    == {<<>>, <<"x1", BNM>>}
 
 SEP_none == {<<>>}
 SEP_all  == {<<>>, <<"S1">>, <<"S2">>, <<"S1", "S2">>, <<"S2", "S1">>, <<"S3">>}
 SEP_some == {<<>>, <<"S2">>, <<"S2", "S1">>}
+SEP_q    == {<<>>, <<"S2">>, <<"S2", "S1">>, <<"S3">>}
 
 EX_none == {<<>>}
 \* one numeric column named f1_zz; its values by row index (positive on the first row, which is a fitting row)
 EX_f1zz == {<<[f |-> "f1", l |-> "zz", v |-> <<1, 0, 2, 0, 1, 0>>]>>}
 
 \* pandas sorts level strings; any fixed total order consistent with Python's string order will do
-Order == <<"a", "k", "other", "p", "q", "r", "z">>
+Order == <<"a", "k", "m", "other", "p", "q", "r", "z">>
 
 LevelsOf(fe) == IF fe = "f1" THEN L1 ELSE L2
 SelAll == [all |-> TRUE, keep |-> <<>>]
 SelChoices(fe) ==
   IF SelMode = "all" THEN {SelAll}
   ELSE IF fe = "f1"
-       THEN {SelAll, [all |-> FALSE, keep |-> <<"a">>], [all |-> FALSE, keep |-> <<"z">>],
-             [all |-> FALSE, keep |-> <<"a", "z">>], [all |-> FALSE, keep |-> <<>>]}
+       THEN {SelAll, [all |-> FALSE, keep |-> <<"a">>], [all |-> FALSE, keep |-> <<"z">>]}
+            \cup (IF SelMode = "some" THEN {[all |-> FALSE, keep |-> <<"a", "z">>], [all |-> FALSE, keep |-> <<>>]} ELSE {})
        ELSE {SelAll, [all |-> FALSE, keep |-> <<"q">>]}
 SelUniverse == SelChoices("f1") \cup SelChoices("f2")
 SelRecs(fes) == {s \in [Rng(fes) -> SelUniverse] : \A fe \in Rng(fes) : s[fe] \in SelChoices(fe)}
